@@ -7,7 +7,7 @@ from .. import spec as SP
 from .common import gen_factor, gen_measure, view_lnf, pdf_view
 from .wf import wf_measure
 
-REG = Registry("C02", skip_clauses=["*/batch/*"])
+REG = Registry("C02")
 G1 = ["G1 Gaussian integral"]
 
 
